@@ -399,6 +399,19 @@ def run_step(case, ctx):
                         cns = df["cn"].tolist()
                         judge_step(ctx, "do_call", cns, logs, kinds, thr, ploidy, male_ref, "step", sub_of, arg is None)
                         record_rows(ctx, cns, logs, kinds, thr)
+                    if naming == "chr" and index == "default" and not interleave:
+                        # history: the table just called is renamed in place to the other naming style and called again
+                        # (both the table handed in and the table handed back are renamed and called again)
+                        again = ctx.call(CALL.do_call, cna.copy(), None, "threshold", ploidy, None, male_ref)
+                        if isinstance(again, Exc):
+                            again = cna.copy()
+                        again["chromosome"] = [chrom_name(k, "plain") for k in kinds]
+                        out2 = ctx.call(CALL.do_call, again, None, "threshold", ploidy, None, male_ref) if arg is None else ctx.call(CALL.do_call, again, None, "threshold", ploidy, None, male_ref, False, None, None, arg)
+                        rows2 = [(chrom_name(k, "plain"),) + tuple(r[1:]) for k, r in zip(kinds, rows)]
+                        df2 = basic(ctx, out2, rows2, "do_call(threshold) after renaming", "step-renamed/do_call", cfg)
+                        if df2 is not None:
+                            judge_step(ctx, "do_call", df2["cn"].tolist(), logs, kinds, thr, ploidy, male_ref, "step-renamed", sub_of, arg is None)
+                        ctx.stratum("step-history: called, chromosomes renamed in place to the other style, called again")
                     h = ctx.call(CALL.absolute_threshold, cna, ploidy, arg if arg is not None else DEFAULT, male_ref)
                     if isinstance(h, Exc):
                         ctx.violation("absolute_threshold returns a result", f"step/absolute_threshold/raises/{h.key}", observed=h, sub=cfg)
